@@ -2,6 +2,7 @@ import Proofs.C19Parse
 import Proofs.C19Bits
 import Proofs.C19Time
 import Proofs.C19Decode
+import Proofs.C19Gen
 /-!
 # C19 — UUIDs parse, print and carry time faithfully; generated time-UUIDs are unique (property theorems)
 
@@ -407,5 +408,166 @@ theorem C19_unique_fields (t1 t2 c1 c2 : Nat) (n1 n2 : List UInt8)
 theorem C19_cex_unique :
     (uuidFromTime 0 [1, 2, 3, 4, 5, 6] 1700000000 0).1 = (uuidFromTime 16384 [1, 2, 3, 4, 5, 6] 1700000000 0).1 := by
   decide
+
+/-! ### the generator over a stream of clock readings (`Model/UuidGen.lean`): uniqueness under bursts
+
+`TimeUUID()` is `UUIDFromTime(time.Now())`: a reading of the wall clock, then ONE atomic increment of the
+process-wide counter, then pure code.  Any schedule of any number of concurrent callers is therefore a run
+`genRun hw c readings` — the readings listed in the order of the increments (they need not be monotone in that
+order: a caller may be descheduled between its reading and its increment). -/
+
+/-- EXACTLY when two steps of a run return the same UUID: they stored the same 100 ns tick and are a multiple of
+    16384 increments apart.  (Everything below is a corollary.) -/
+theorem C19_timeuuid_dup_iff (hw : List UInt8) (c : Nat) (readings : List (Int × Nat)) (i j : Nat)
+    (hi : i < readings.length) (hj : j < readings.length) :
+    (genRun hw c readings)[i]'(by rw [genRun_length]; exact hi) =
+      (genRun hw c readings)[j]'(by rw [genRun_length]; exact hj) ↔
+    tick readings[i] = tick readings[j] ∧ i % 16384 = j % 16384 :=
+  genRun_eq_iff hw readings c i j hi hj
+
+/-- FULL STATEMENT of the property's last sentence for `TimeUUID()`: "pairwise distinct for any number of calls" —
+    false for a 14-bit clock sequence (KF-C19-1, `C19_cex_unique`, `C19_timeuuid_dup_same_reading`).
+    Proved, for runs of ANY length and any schedule: if no two steps that stored the same tick are 16384 or more
+    increments apart — the clock moves on at least every 16384 calls, at the 100 ns granularity the code stores —
+    the UUIDs are pairwise distinct.  The hypothesis is about the TICKS THE CODE STORES: a generator that stores
+    a coarser value than its reading (a truncated `time.Now()`) fails it at the burst rate where 16384 calls share
+    one stored value; that the stored tick IS the reading's 100 ns tick is `C19_timeuuid_sandwich`. -/
+theorem C19_timeuuid_unique_if_clock_advances (hw : List UInt8) (c : Nat) (readings : List (Int × Nat))
+    (h : ∀ i j (hi : i < readings.length) (hj : j < readings.length), i < j →
+      tick readings[i] = tick readings[j] → j - i < 16384) :
+    (genRun hw c readings).Pairwise (· ≠ ·) := by
+  rw [List.pairwise_iff_getElem]
+  intro i j hi hj hij heq
+  have hi' : i < readings.length := by rw [genRun_length] at hi; exact hi
+  have hj' : j < readings.length := by rw [genRun_length] at hj; exact hj
+  obtain ⟨ht, hm⟩ := (genRun_eq_iff hw readings c i j hi' hj').mp heq
+  have := h i j hi' hj' hij ht
+  omega
+
+/-- the same for a clock read in increment order (no caller overtaken between reading and increment): the ticks
+    never decrease and the tick 16384 steps later is always a new one -/
+theorem C19_timeuuid_unique_monotone_clock (hw : List UInt8) (c : Nat) (readings : List (Int × Nat))
+    (hmono : ∀ i j (hi : i < readings.length) (hj : j < readings.length), i ≤ j → tick readings[i] ≤ tick readings[j])
+    (hadv : ∀ i (hi : i + 16384 < readings.length), tick readings[i] < tick readings[i + 16384]) :
+    (genRun hw c readings).Pairwise (· ≠ ·) := by
+  apply C19_timeuuid_unique_if_clock_advances
+  intro i j hi hj hij ht
+  apply Classical.byContradiction
+  intro hge
+  have h1 := hadv i (by omega)
+  have h2 := hmono (i + 16384) j (by omega) hj (by omega)
+  omega
+
+/-- the converse direction made concrete: whatever the state, two steps 16384 increments apart that got the same
+    reading (a clock that stood still, or a time source coarser than the burst) return the SAME UUID -/
+theorem C19_timeuuid_dup_same_reading (hw : List UInt8) (c : Nat) (readings : List (Int × Nat)) (i : Nat)
+    (hi : i + 16384 < readings.length) (h : readings[i] = readings[i + 16384]) :
+    (genRun hw c readings)[i]'(by rw [genRun_length]; omega) =
+      (genRun hw c readings)[i + 16384]'(by rw [genRun_length]; exact hi) := by
+  apply (genRun_eq_iff hw readings c i (i + 16384) (by omega) hi).mpr
+  exact ⟨by rw [h], by omega⟩
+
+/-- what one `TimeUUID()` call returns, for a representable reading `now` taken between two other readings
+    `before ≤ now ≤ after` of the same clock: version 1, RFC 4122 variant, the node, the new counter value's low
+    14 bits, and a timestamp that is EXACTLY the reading's 100 ns tick — hence between the ticks of `before` and
+    `after` (the burst monitor's interval check). -/
+theorem C19_timeuuid_sandwich (hw : List UInt8) (c : Nat) (before now after : Int × Nat)
+    (hb : Representable before.1 before.2) (hn : Representable now.1 now.2) (ha : Representable after.1 after.2)
+    (h0 : readingLe before now) (h1 : readingLe now after) :
+    let u := (timeUUID c hw now).1
+    version u = 1 ∧ variant u = 2 ∧ node u = some (nodeBytes hw) ∧ clock u = (c + 1) % 2 ^ 14 ∧
+    (timestamp u : Int) = (now.1 - timeBase) * 10000000 + (now.2 / 100 : Nat) ∧
+    tick before ≤ timestamp u ∧ timestamp u ≤ tick after := by
+  have hts : timestamp (timeUUID c hw now).1 = tick now := by
+    simp only [timeUUID, uuidFromTime, timestamp_with_mod, tick]
+  refine ⟨version_with _ _ _, variant_with _ _ _, node_with _ _ _, ?_, ?_, ?_, ?_⟩
+  · simp only [timeUUID, uuidFromTime, clock_with, Nat.reducePow]; omega
+  · rw [hts]; exact tick_exact now hn
+  · rw [hts]; exact tick_mono _ _ hb hn h0
+  · rw [hts]; exact tick_mono _ _ hn ha h1
+
+/-- the counter after a run of `n` steps is `c + n` (uint32), and step `i` carries the clock field of `c + 1 + i` -/
+theorem C19_genrun_counter (hw : List UInt8) (c : Nat) (hc : c < 2 ^ 32) (readings : List (Int × Nat)) :
+    readings.foldl (fun s now => (timeUUID s hw now).2) c = genCtr c readings.length :=
+  genRun_ctr hw readings c hc
+
+theorem C19_genrun_clock_fields (hw : List UInt8) (c : Nat) (readings : List (Int × Nat)) (i : Nat)
+    (hi : i < readings.length) :
+    clock ((genRun hw c readings)[i]'(by rw [genRun_length]; exact hi)) = (c + 1 + i) % 2 ^ 14 := by
+  rw [genRun_get hw readings c i hi, clock_with]
+  simp only [Nat.reducePow]; omega
+
+/-- the controlled clock of the `genrun` op: a reading inside the representable range that moves on by at least
+    100 ns at least every 16384 calls gives pairwise distinct UUIDs, for every run length, start counter (also
+    across the 2^32 wrap) and node -/
+theorem C19_genrun_distinct (hw : List UInt8) (c : Nat) (sec : Int) (nsec every stepns n : Nat)
+    (he : 0 < every) (he' : every ≤ 16384) (hs : 100 ≤ stepns) (hsec : timeBase ≤ sec)
+    (hlt : (sec - timeBase) * 10000000 + ((nsec + n / every * stepns) / 100 : Nat) < 2 ^ 60) :
+    (genRun hw c (steppedReadings sec nsec every stepns n)).Pairwise (· ≠ ·) := by
+  have hlen : (steppedReadings sec nsec every stepns n).length = n := by simp [steppedReadings]
+  have hget : ∀ k (hk : k < (steppedReadings sec nsec every stepns n).length),
+      (steppedReadings sec nsec every stepns n)[k] = steppedClock sec nsec every stepns k := by
+    intro k hk; simp [steppedReadings]
+  -- the tick of step k, for every k < n
+  have htick : ∀ k, k < n → (tick (steppedClock sec nsec every stepns k) : Int) =
+      (sec - timeBase) * 10000000 + ((nsec + k / every * stepns) / 100 : Nat) := by
+    intro k hk
+    refine (stepped_repr sec nsec every stepns k hsec ?_).2
+    have h1 : k / every * stepns ≤ n / every * stepns :=
+      Nat.mul_le_mul_right _ (Nat.div_le_div_right (by omega))
+    have h2 : (nsec + k / every * stepns) / 100 ≤ (nsec + n / every * stepns) / 100 :=
+      Nat.div_le_div_right (by omega)
+    omega
+  apply C19_timeuuid_unique_monotone_clock
+  · intro i j hi hj hij
+    rw [hget i hi, hget j hj]
+    have ti := htick i (by omega)
+    have tj := htick j (by omega)
+    have h1 : i / every * stepns ≤ j / every * stepns := Nat.mul_le_mul_right _ (Nat.div_le_div_right hij)
+    have h2 : (nsec + i / every * stepns) / 100 ≤ (nsec + j / every * stepns) / 100 :=
+      Nat.div_le_div_right (by omega)
+    omega
+  · intro i hi
+    rw [hget i (by omega), hget (i + 16384) hi]
+    have ti := htick i (by omega)
+    have tj := htick (i + 16384) (by omega)
+    have h0 : i / every + 1 ≤ (i + 16384) / every := by
+      rw [← Nat.add_div_right i he]
+      exact Nat.div_le_div_right (by omega)
+    have h1 : (i / every + 1) * stepns ≤ (i + 16384) / every * stepns := Nat.mul_le_mul_right _ h0
+    rw [Nat.add_mul, Nat.one_mul] at h1
+    have h2 : (nsec + i / every * stepns) / 100 + 1 ≤ (nsec + (i + 16384) / every * stepns) / 100 := by
+      rw [← Nat.add_div_right _ (by decide : 0 < 100)]
+      exact Nat.div_le_div_right (by omega)
+    omega
+
+/-- the duplicate search the driver runs on a model run is correct: `none` only for pairwise distinct runs, and
+    `some (i, j)` names two positions `i < j` holding the same UUID -/
+theorem C19_genrun_verdict (us : List (List UInt8)) :
+    (firstDup us = none → us.Pairwise (· ≠ ·)) ∧
+    (∀ i j, firstDup us = some (i, j) → i < j ∧ ∃ u, us[i]? = some u ∧ us[j]? = some u) :=
+  ⟨(firstDup_spec us).2, (firstDup_spec us).1⟩
+
+/-- so the model's answer to a `genrun` op inside the hypothesis of `C19_genrun_distinct` is `distinct` -/
+theorem C19_genrun_answer_distinct (hw : List UInt8) (c : Nat) (sec : Int) (nsec every stepns n : Nat)
+    (he : 0 < every) (he' : every ≤ 16384) (hs : 100 ≤ stepns) (hsec : timeBase ≤ sec)
+    (hlt : (sec - timeBase) * 10000000 + ((nsec + n / every * stepns) / 100 : Nat) < 2 ^ 60) :
+    firstDup (genRun hw c (steppedReadings sec nsec every stepns n)) = none := by
+  have hp := C19_genrun_distinct hw c sec nsec every stepns n he he' hs hsec hlt
+  cases hf : firstDup (genRun hw c (steppedReadings sec nsec every stepns n)) with
+  | none => rfl
+  | some ij =>
+    obtain ⟨i, j⟩ := ij
+    obtain ⟨hij, u, hi, hj⟩ := (firstDup_spec _).1 i j hf
+    rw [List.pairwise_iff_getElem] at hp
+    obtain ⟨hi', hiu⟩ := List.getElem?_eq_some_iff.mp hi
+    obtain ⟨hj', hju⟩ := List.getElem?_eq_some_iff.mp hj
+    exact absurd (hiu.trans hju.symm) (hp i j hi' hj' hij)
+
+/-- non-vacuity: a run of 3 steps under a clock that stands still is distinct (the hypothesis is about steps
+    16384 apart), and the readings of the stepped clock carry across a second -/
+example : (genRun [1, 2, 3, 4, 5, 6] 0xffffffff [(1700000000, 5), (1700000000, 5), (1700000000, 5)]).Pairwise (· ≠ ·) :=
+  C19_timeuuid_unique_if_clock_advances _ _ _ (by intro i j hi hj hij _; simp at hj; omega)
+example : steppedClock 1700000000 999999950 2 100 5 = (1700000001, 150) := by decide
 
 end C19
